@@ -2202,6 +2202,33 @@ def rule_varint_constants(out, tier):
                             return None
                     return None
                 lv, rv = lit(ops[0]), lit(ops[1])
+                if lv is None and rv is None:
+                    # a NAMED constant compared / combined with a parameter of the routine (`value <= MAX_SINGLE_BYTE`)
+                    prm = {c.get("name") for c in params_of(fn) if c.get("name")}
+
+                    def named(o):
+                        while o.get("kind") in ("ImplicitCastExpr", "ParenExpr", "CXXStaticCastExpr", "ConstantExpr") and o.get("inner"):
+                            o = [c for c in o["inner"] if isinstance(c, dict)][-1]
+                        if o.get("kind") != "DeclRefExpr":
+                            return None
+                        nm = (o.get("referencedDecl") or {}).get("name")
+                        for rr in roots:
+                            for vd in walk(rr):
+                                if vd.get("kind") == "VarDecl" and vd.get("name") == nm:
+                                    for ini in walk(vd):
+                                        if ini.get("kind") == "IntegerLiteral":
+                                            try:
+                                                return int(ini.get("value"))
+                                            except (TypeError, ValueError):
+                                                return None
+                        return None
+
+                    def about_param(o):
+                        return any(y.get("kind") == "DeclRefExpr" and (y.get("referencedDecl") or {}).get("name") in prm for y in walk(o))
+                    if about_param(ops[0]) and not about_param(ops[1]):
+                        rv = named(ops[1])
+                    elif about_param(ops[1]) and not about_param(ops[0]):
+                        lv = named(ops[0])
                 if (lv is None) == (rv is None):
                     continue  # no literal, or a constant expression
                 v = rv if rv is not None else lv
@@ -2591,10 +2618,42 @@ def rule_ndjson_field_omission(out, tier):
         out.undecided(rid, "anchor/ShouldSerializeFieldValue(variant)", rel, "overload for std::variant not found")
 
 
+
+def _always_throws(n):
+    """every path through the statement (a catch handler, a block, an if) ends in a throw expression"""
+    k = n.get("kind")
+    inner = [c for c in (n.get("inner") or []) if isinstance(c, dict)]
+    if k == "CXXThrowExpr":
+        return True
+    if k in ("ExprWithCleanups", "ImplicitCastExpr", "ParenExpr") and inner:
+        return _always_throws(inner[-1])
+    if k == "CXXCatchStmt":
+        body = [c for c in inner if c.get("kind") == "CompoundStmt"]
+        return bool(body) and _always_throws(body[-1])
+    if k == "CompoundStmt":
+        for st in inner:
+            if _always_throws(st):
+                return True
+            if st.get("kind") == "ReturnStmt":
+                return False
+        return False
+    if k == "IfStmt":
+        parts = inner
+        if n.get("hasInit") or n.get("hasVar"):
+            parts = inner[1:] if n.get("hasInit") else inner
+        if len(parts) >= 3:
+            return _always_throws(parts[1]) and _always_throws(parts[2])
+        return False
+    if k == "CallExpr":
+        name = callee_name(n)
+        return name.endswith("rethrow_exception") or name.endswith("terminate") or name.endswith("abort")
+    return False
+
+
 def rule_no_swallowed_eof(out, tier):
     rid = "CB6"
     out.rule(rid, "binary runtime headers: the end-of-stream exception propagates — no routine of coded_stream.h, serializers.h, header.h or reader_writer.h catches "
-                  "it (or catches everything) without rethrowing: a truncated stream must not look like a complete one", 1)
+                  "it (or catches everything) without rethrowing ON EVERY PATH of the handler: a truncated stream must not look like a complete one", 1)
     roots, rc, err = dump(out.repo, "reader_writer.h")
     rel = BIN
     if rc != 0 or not roots:
@@ -2625,7 +2684,7 @@ def rule_no_swallowed_eof(out, tier):
                 for c in inner:
                     if c.get("kind") == "VarDecl":
                         caught = (c.get("type") or {}).get("qualType", "")
-                rethrows = any(y.get("kind") == "CXXThrowExpr" for y in walk(x))
+                rethrows = _always_throws(x)
                 swallow_eof = (caught == "" or "EndOfStream" in caught or "std::exception" in caught or "runtime_error" in caught) and not rethrows
                 out.check(not swallow_eof, rid, "%s/catch %s" % (n.get("name"), caught or "..."), "%s:%d" % (rel, x.get("_line", n.get("_line", 0))),
                           "the handler rethrows or cannot catch the end-of-stream exception",
